@@ -241,7 +241,7 @@ func (g *gstate) proofOp() {
 	if c == nil || c.ntx == 0 {
 		return
 	}
-	form := []string{"header", "hash"}[g.r.Intn(2)]
+	form := []string{"header", "hash", "both"}[g.r.Pick(40, 35, 25)]
 	tx := g.r.Intn(c.ntx)
 	if g.r.Chance(25) {
 		tx = c.ntx - 1
@@ -259,6 +259,9 @@ func (g *gstate) proofOp() {
 		o := g.nodes[g.r.Intn(len(g.nodes))]
 		if o.id != 0 && o.id != c.id {
 			mut = fmt.Sprintf("other:%d", o.id)
+			if form == "both" && g.r.Chance(50) {
+				mut = fmt.Sprintf("otherhash:%d", o.id)
+			}
 		}
 	case 5:
 		mut = "unknownhash"
